@@ -164,6 +164,21 @@ func ruleTreeOverlap(w *World, r *Report) {
 			nT++
 			continue
 		}
+		// literal true on a path entered only through the true edge of an IsOverlap test
+		if c, ok := v.(*ssa.Const); ok && c.Value != nil && c.Value.String() == "true" && l2.blocks()[ret.Block()] {
+			hit := false
+			for b := range l2.blocks() {
+				for _, in := range b.Instrs {
+					if q, ok := in.(*ssa.Call); ok && isRadixMethod("IsOverlap")(q) && dominatedByTrueOf(f, q, ret.Block()) {
+						hit = true
+					}
+				}
+			}
+			if hit {
+				nT++
+				continue
+			}
+		}
 		badRet = "success return value is neither the IsOverlap result nor false (" + describeValue(ret.Results[0]) + " at " + w.Pos(ret.Pos()) + ")"
 	}
 	if badRet != "" || nT == 0 || nF == 0 {
